@@ -1,6 +1,8 @@
 (* Tie (C20) — SEMANTIC: the body of Sequence.get_HTMLColorString, translated from the working tree into a Core.MiniPy term
    on every run (dictionary lookup, np.mod block tests, %-formatting), is proved equal to Model.Html.m_render for EVERY
-   sequence and EVERY palette. *)
+   sequence and EVERY palette; the body of set_HTMLColorResiduePalette (two dictionary loops) is proved to raise exactly when
+   Model.Html.set_palette rejects, and otherwise to install the colour map of the model's new palette, for EVERY
+   dictionary of strings. *)
 From Coq Require Import List String Ascii ZArith Bool Arith Lia.
 From LC Require Import Core.Residue Core.MiniPy Model.Html Proofs.Html Gen.GMiniPy.
 Import ListNotations.
@@ -103,3 +105,195 @@ Proof.
   unfold gh_rest, gh_env. mh. unfold m_render. rewrite chars_app, fold_la. reflexivity.
 Qed.
 Print Assumptions get_HTMLColorString_tie.
+
+(* ---------- set_HTMLColorResiduePalette ---------- *)
+Local Notation sv s := (VStr (la s)).
+Local Notation kv a := (VStr [aa_char a]).
+Definition dict_val (d : list (string * string)) : value := VDict (map (fun p => (sv (fst p), sv (snd p))) d).
+Definition pal_val (t : list (aa * string)) : list (value * value) := map (fun p => (kv (fst p), sv (snd p))) t.
+
+Definition sp_env (d : list (string * string)) (valid iv amap : value) : env :=
+  [("self"%string, VNone); ("colorDict"%string, dict_val d); ("valid"%string, valid); ("i"%string, iv);
+   ("self.aminoAcidColorMap"%string, amap)].
+
+Definition sp_pre : list stmt := Eval vm_compute in match split_at_for g_set_palette with Some (p, _, _) => p | None => [] end.
+Definition sp_body : stmt := Eval vm_compute in match split_at_for g_set_palette with Some (_, (_, _, b), _) => b | None => SSkip end.
+Definition sp_iter : expr := Eval vm_compute in match split_at_for g_set_palette with Some (_, (_, e, _), _) => e | None => EConst VNone end.
+Definition sp_rest : stmt := Eval vm_compute in match split_at_for g_set_palette with Some (_, _, r) => r | None => SRaise end.
+Lemma sp_split_eq : split_at_for g_set_palette = Some (sp_pre, ("i"%string, sp_iter, sp_body), sp_rest).
+Proof. vm_compute. reflexivity. Qed.
+Lemma sp_keys r : elements (eval sp_iter r) = Some (map (fun a => kv a) all20).
+Proof. reflexivity. Qed.
+
+Ltac ms := cbn [MiniPy.exec MiniPy.eval lookup set String.eqb Ascii.eqb Bool.eqb truthy v_not cmp_int bad2 is_bad as_Q
+                sp_env orb negb].
+
+Lemma la_eqb a b : ascii_list_eqb (la a) (la b) = String.eqb a b.
+Proof.
+  revert b. induction a as [|c a IH]; intros [|d b]; cbn [la ascii_list_eqb String.eqb]; try reflexivity.
+  rewrite IH. destruct (Ascii.eqb c d); reflexivity.
+Qed.
+
+Lemma kv_sv a : kv a = sv (aa_str a).
+Proof. destruct a; reflexivity. Qed.
+
+Lemma dict_get_assoc k d : dict_get (sv k) (map (fun p => (sv (fst p), sv (snd p))) d) = option_map (fun x => sv x) (assoc k d).
+Proof.
+  induction d as [|[k' v] d IH]; [reflexivity|]. cbn [map dict_get assoc fst snd].
+  change (veqb (sv k) (sv k')) with (ascii_list_eqb (la k) (la k')). rewrite la_eqb.
+  destruct (String.eqb k k'); [reflexivity | exact IH].
+Qed.
+
+Lemma colours_in c l : existsb (veqb (sv c)) (map (fun x => sv x) l) = in_strs c l.
+Proof.
+  unfold in_strs. induction l as [|x l IH]; [reflexivity|]. cbn [map existsb].
+  change (veqb (sv c) (sv x)) with (ascii_list_eqb (la c) (la x)). rewrite la_eqb, IH. reflexivity.
+Qed.
+
+Lemma lower_colour c : in_strs c colours17 = true -> map lower_py (la c) = la c.
+Proof.
+  intros H. apply in_strs_In in H. cbn [colours17 In] in H.
+  repeat (destruct H as [<-|H]; [reflexivity|]). destruct H.
+Qed.
+
+Lemma kv_eqb a b : veqb (kv a) (kv b) = aa_eqb a b.
+Proof. destruct a, b; reflexivity. Qed.
+
+Lemma pal_get_none a t : ~ In a (map fst t) -> dict_get (kv a) (pal_val t) = None.
+Proof.
+  induction t as [|[b c] t IH]; intros H; [reflexivity|]. cbn [pal_val map dict_get fst snd]. rewrite kv_eqb.
+  destruct (aa_eqb_spec a b) as [->|Hne]; [exfalso; apply H; left; reflexivity|]. apply IH. intros Hin. apply H. right. exact Hin.
+Qed.
+
+Lemma dict_set_new k v d : dict_get k d = None -> dict_set k v d = d ++ [(k, v)].
+Proof.
+  induction d as [|[k' w] d IH]; intros H; [reflexivity|]. cbn [dict_get dict_set] in *.
+  destruct (veqb k k'); [discriminate|]. cbn [app]. now rewrite IH.
+Qed.
+
+(* first loop: one key *)
+Lemma sp_step1 d t iv amap a : ~ In a (map fst t) ->
+  exec sp_body (set "i" (kv a) (sp_env d (VDict (pal_val t)) iv amap)) =
+  match assoc (aa_str a) d with
+  | Some c => if in_strs c colours17 then ONorm (sp_env d (VDict (pal_val (t ++ [(a, c)]))) (kv a) amap) else ORaise
+  | None => ORaise
+  end.
+Proof.
+  intros Hnew. unfold sp_body. ms. unfold dict_val.
+  change (v_in (kv a) (VDict (map (fun p => (sv (fst p), sv (snd p))) d)))
+    with (VBool (match dict_get (kv a) (map (fun p => (sv (fst p), sv (snd p))) d) with Some _ => true | None => false end)).
+  rewrite kv_sv, dict_get_assoc. destruct (assoc (aa_str a) d) as [c|] eqn:Ea; cbn [option_map]; ms; [|reflexivity].
+  rewrite dict_get_assoc, Ea. cbn [option_map]. ms.
+  match goal with |- context [v_in (sv c) (VList ?l)] =>
+    change (v_in (sv c) (VList l)) with (VBool (existsb (veqb (sv c)) (map (fun x => sv x) colours17))) end.
+  rewrite colours_in. destruct (in_strs c colours17) eqn:Ec; ms; [|reflexivity].
+  rewrite !dict_get_assoc, Ea. cbn [option_map]. ms. rewrite (lower_colour c Ec).
+  rewrite (dict_set_new _ _ _ (pal_get_none a t Hnew)). unfold pal_val. rewrite map_app. reflexivity.
+Qed.
+
+
+(* first loop: all keys *)
+Lemma sp_loop1 d amap rs : forall t iv, NoDup (map fst t ++ rs) ->
+  match lookup_rs d rs with
+  | Some t' => exists iv', run_loop "i" sp_body (map (fun a => kv a) rs) (sp_env d (VDict (pal_val t)) iv amap) =
+                           ONorm (sp_env d (VDict (pal_val (t ++ t'))) iv' amap)
+  | None => run_loop "i" sp_body (map (fun a => kv a) rs) (sp_env d (VDict (pal_val t)) iv amap) = ORaise
+  end.
+Proof.
+  induction rs as [|a rs IH]; intros t iv Hnd; cbn [lookup_rs map MiniPy.run_loop].
+  - exists iv. now rewrite app_nil_r.
+  - assert (Hnew : ~ In a (map fst t)).
+    { intros Hin. apply NoDup_remove_2 in Hnd. apply Hnd. apply in_or_app. left. exact Hin. }
+    rewrite (sp_step1 d t iv amap a Hnew). destruct (assoc (aa_str a) d) as [c|]; [|reflexivity].
+    destruct (in_strs c colours17); [|reflexivity].
+    assert (Hnd' : NoDup (map fst (t ++ [(a, c)]) ++ rs)).
+    { rewrite map_app. cbn [map fst]. rewrite <- app_assoc. exact Hnd. }
+    specialize (IH (t ++ [(a, c)]) (kv a) Hnd'). destruct (lookup_rs d rs) as [t'|].
+    + destruct IH as [iv' E]. exists iv'. rewrite E. rewrite <- app_assoc. reflexivity.
+    + exact IH.
+Qed.
+
+Lemma lookup_rs_keys d rs t : lookup_rs d rs = Some t -> map fst t = rs.
+Proof.
+  revert t. induction rs as [|a rs IH]; intros t H; cbn [lookup_rs] in H; [injection H as <-; reflexivity|].
+  destruct (assoc (aa_str a) d) as [c|]; [|discriminate]. destruct (in_strs c colours17); [|discriminate].
+  destruct (lookup_rs d rs) as [t'|]; [|discriminate]. injection H as <-. cbn [map fst]. f_equal. apply IH. reflexivity.
+Qed.
+
+Lemma pal_get_some a c pre suf : ~ In a (map fst pre) -> dict_get (kv a) (pal_val (pre ++ (a, c) :: suf)) = Some (sv c).
+Proof.
+  induction pre as [|[b x] pre IH]; intros H; cbn [app pal_val map dict_get fst snd].
+  - rewrite kv_eqb, aa_eqb_refl. reflexivity.
+  - rewrite kv_eqb. destruct (aa_eqb_spec a b) as [->|Hne]; [exfalso; apply H; left; reflexivity|].
+    apply IH. intros Hin. apply H. right. exact Hin.
+Qed.
+
+(* second loop: the validated dictionary is copied, key by key, into a fresh colour map *)
+Definition sp_body2 : stmt := SSetItem "self.aminoAcidColorMap" (EVar "i") (EIndex (EVar "valid") (EVar "i")).
+
+Lemma sp_loop2 d t : NoDup (map fst t) -> forall suf pre iv, t = pre ++ suf ->
+  exists iv', run_loop "i" sp_body2 (map (fun p => kv (fst p)) suf) (sp_env d (VDict (pal_val t)) iv (VDict (pal_val pre))) =
+              ONorm (sp_env d (VDict (pal_val t)) iv' (VDict (pal_val t))).
+Proof.
+  intros Hnd. induction suf as [|[a c] suf IH]; intros pre iv Ht; cbn [map MiniPy.run_loop fst].
+  - exists iv. rewrite app_nil_r in Ht. subst pre. reflexivity.
+  - assert (Hnew : ~ In a (map fst pre)).
+    { rewrite Ht, map_app in Hnd. cbn [map fst] in Hnd. apply NoDup_remove_2 in Hnd. intros Hin. apply Hnd. apply in_or_app. left. exact Hin. }
+    unfold sp_body2. ms.
+    replace (dict_get (kv a) (pal_val t)) with (Some (sv c)) by (rewrite Ht; symmetry; apply pal_get_some; exact Hnew). ms.
+    rewrite (dict_set_new _ _ _ (pal_get_none a pre Hnew)).
+    assert (Ht' : t = (pre ++ [(a, c)]) ++ suf) by (rewrite <- app_assoc; exact Ht).
+    destruct (IH (pre ++ [(a, c)]) (kv a) Ht') as [iv' E]. exists iv'. unfold sp_env, pal_val in *. rewrite map_app in E. exact E.
+Qed.
+
+Lemma sp_rest_eq : sp_rest = SSeq (SAssign "self.aminoAcidColorMap" (EConst (VDict []))) (SFor "i" (EVar "valid") sp_body2).
+Proof. reflexivity. Qed.
+
+(* the whole of set_HTMLColorResiduePalette, for EVERY dictionary of strings: rejected (raise) exactly when the model
+   rejects; otherwise the object's colour map becomes the validated dictionary, in the order of the 20 residues *)
+Theorem set_palette_tie d amap :
+  match lookup_all d with
+  | Some t => exists iv, exec g_set_palette (sp_env d VNone VNone amap) =
+                         ONorm (sp_env d (VDict (pal_val t)) iv (VDict (pal_val t)))
+  | None => exec g_set_palette (sp_env d VNone VNone amap) = ORaise
+  end.
+Proof.
+  rewrite (exec_split _ _ _ _ _ _ _ sp_split_eq).
+  change (exec_list sp_pre (sp_env d VNone VNone amap)) with (ONorm (sp_env d (VDict (pal_val [])) VNone amap)).
+  cbv beta iota. rewrite exec_for. 
+  assert (Hk : forall r, match eval sp_iter r with VExc => ORaise | v => match elements v with None => OErr | Some xs => run_loop "i" sp_body xs r end end
+                         = run_loop "i" sp_body (map (fun a => kv a) all20) r) by (intros r; reflexivity).
+  rewrite Hk. unfold lookup_all.
+  pose proof (sp_loop1 d amap all20 [] VNone) as H1. cbn [map app] in H1. specialize (H1 all20_nodup).
+  pose proof (lookup_rs_keys d all20) as Hkeys.
+  destruct (lookup_rs d all20) as [t|]; [|rewrite H1; reflexivity].
+  destruct H1 as [iv' E]. rewrite E. cbn [app]. rewrite sp_rest_eq, exec_seq.
+  change (exec (SAssign "self.aminoAcidColorMap" (EConst (VDict []))) (sp_env d (VDict (pal_val t)) iv' amap))
+    with (ONorm (sp_env d (VDict (pal_val t)) iv' (VDict (pal_val [])))).
+  cbv beta iota. rewrite exec_for.
+  change (eval (EVar "valid") (sp_env d (VDict (pal_val t)) iv' (VDict (pal_val [])))) with (VDict (pal_val t)).
+  cbn [elements].
+  assert (Hnd : NoDup (map fst t)) by (rewrite (Hkeys t eq_refl); exact all20_nodup).
+  destruct (sp_loop2 d t Hnd t [] iv' eq_refl) as [iv'' E2].
+  unfold pal_val at 1. rewrite map_map. cbn [fst]. rewrite E2. exists iv''. reflexivity.
+Qed.
+
+(* ... and that dictionary is the colour map of the model's new palette: what get_HTMLColorString (minipy_html_tie)
+   then renders with *)
+Lemma find_own (t : list (aa * string)) : NoDup (map fst t) -> forall p, In p t -> find (fun q => aa_eqb (fst q) (fst p)) t = Some p.
+Proof.
+  induction t as [|q t IH]; intros Hnd p Hin; [destruct Hin|]. cbn [find]. inversion Hnd as [|? ? Hnotin Hnd']; subst.
+  destruct Hin as [->|Hin]; [rewrite aa_eqb_refl; reflexivity|].
+  destruct (aa_eqb_spec (fst q) (fst p)) as [E|_]; [|apply IH; assumption].
+  exfalso. apply Hnotin. rewrite E. apply in_map. exact Hin.
+Qed.
+
+Theorem accepted_palette_is_the_models d pal t : lookup_all d = Some t ->
+  VDict (pal_val t) = VDict (map (fun a => (kv a, sv (pal_of t pal a))) all20) /\ set_palette pal d = Some (pal_of t pal).
+Proof.
+  intros H. split; [|unfold set_palette; rewrite H; reflexivity]. f_equal.
+  pose proof (lookup_rs_keys d all20 t H) as Hk. assert (Hnd : NoDup (map fst t)) by (rewrite Hk; exact all20_nodup).
+  rewrite <- Hk, map_map. unfold pal_val. apply map_ext_in. intros p Hp. f_equal. f_equal. f_equal.
+  unfold pal_of. rewrite (find_own t Hnd p Hp). reflexivity.
+Qed.
+Print Assumptions set_palette_tie.
